@@ -197,7 +197,7 @@ def check_predict(case):
     e1 = ref.rot_dist(ref.mrp_to_R(x1[:3]), Rw)
     if e1 > 0.01 * th**5 + 1e-12:
         raise Violation("predict: attitude error %.3e vs exact gyro integration exceeds 0.01 theta^5 + 1e-12 (theta = %.4g)" % (e1, th), **case)
-    if th >= 0.05:
+    if 0.05 <= th <= 0.3:  # (larger steps are pre-asymptotic: next to the shadow switch the h^6 term is comparable, ratios down to 14)
         _, _, x2, _ = run_predict(case, case["dt"] / 2)
         Rw2 = ref.mrp_to_R(x[:3]) @ ref.rotvec_to_R(wb * case["dt"] / 2)
         e2 = ref.rot_dist(ref.mrp_to_R(x2[:3]), Rw2)
@@ -449,7 +449,7 @@ def build(tier):
             "(the convention of the estimator's own measurement functions)",
             "initialisation exactness is asserted (1e-9 on the rotation matrix) whenever the returned error code is 0",
             "prediction accuracy: geodesic error vs R exp([w-b]x dt) <= 0.01 theta^5 + 1e-12 and error ratio on halving dt within "
-            "[20, 50] for theta >= 0.05 (measured on the unchanged tree over 3000 draws: coefficient <= 1.5e-3, ratio in [27.2, 36.2])",
+            "[20, 50] for 0.05 <= theta <= 0.3 (measured on the unchanged tree over 3000 draws: coefficient <= 1.5e-3, ratio in [27.2, 36.2]; at theta = 0.6 next to the shadow switch the thorough tier found 14 - pre-asymptotic, the h^6 term is comparable there)",
             "'bit-for-bit unchanged' is checked with numpy array_equal on the returned x and W (W passed lower-triangular)",
             "covariance monotonicity: lambda_min(P - P+) >= -1e-10 |P|",
         ],
